@@ -150,6 +150,10 @@ class Explorer:
         conns = pool.connections
         if len(conns) > maxc:
             self.violations.append(("C04:limit-exceeded", {"where": where, "conns": [c.info() for c in conns]}))
+        closes = sum(1 for p in self.net.pending if not p.done and p.rec["op"] == "close")
+        if len(self.net.open_sockets()) > maxc + closes:
+            self.violations.append(("C04:streams-exceed-limit", {"where": where, "open": self.net.open_sockets(), "max": maxc,
+                                                                   "conns": [c.info() for c in conns]}))
         # C07: no serviceable waiter (skipped while some task is still inside a connection close: its pass follows)
         closing_in_progress = any(p.rec["op"] == "close" for p in self.net.pending if not p.done)
         for pr in ([] if closing_in_progress else list(pool._requests)):
@@ -480,6 +484,10 @@ def signature_of(clause, detail, cfg, ex):
         return info.split(", ")[2] if info.count(", ") >= 2 else info
     if clause == "C05:connection-in-limbo":
         sig["conn_state"] = state_of(detail.get("info", ""))
+    if clause == "C04:streams-exceed-limit":
+        first_tls = next((i for i, t in enumerate(ex.trace) if t[0] == "ok" and t[1] == "start_tls"), len(ex.trace))
+        first_cancel = next((i for i, t in enumerate(ex.trace) if t[0] == "cancel"), None)
+        sig["pattern"] = "cancel-during-shared-establishment" if (first_cancel is not None and first_cancel < first_tls and cfg.get("http2")) else "other"
     if clause in ("C05:capacity-lost", "C07:caller-blocked-forever"):
         snap = detail.get("snapshot", {})
         sig["conn_states"] = sorted(set(state_of(i) for i in snap.get("conns", [])))
